@@ -27,6 +27,9 @@ type RunOpts struct {
 	// of the child without any seccomp filter being involved (what a kernel without the call looks like)
 	Inject  string
 	Timeout time.Duration
+	// HideSysctl (root, without strace): the child starts in a mount namespace of its own in which /proc/sys/kernel/seccomp
+	// is covered by an empty file system (a container with a masked /proc/sys). The child says whether that worked.
+	HideSysctl bool
 	Env     []string
 }
 
@@ -146,6 +149,8 @@ func runOnce(job *kjob.Job, o RunOpts) (*RunResult, error) {
 		}
 		args = append(args, bin, jobPath)
 		cmd = exec.CommandContext(ctx, "strace", args...)
+	} else if o.HideSysctl && o.Uid == 0 {
+		cmd = exec.CommandContext(ctx, "unshare", "-m", "--propagation", "private", "sh", "-c", `mount -t tmpfs tmpfs /proc/sys/kernel/seccomp 2>/dev/null; exec "$0" "$1"`, bin, jobPath)
 	} else {
 		cmd = exec.CommandContext(ctx, bin, jobPath)
 		if o.Uid != 0 {
